@@ -4,6 +4,8 @@ import Ufo2ftModel.Spec.C14Run
 import Ufo2ftModel.Spec.C14Special
 import Ufo2ftModel.Model.C14Cu2qu
 import Ufo2ftModel.Spec.C14Cu2qu
+import Ufo2ftModel.Model.C14Entry
+import Ufo2ftModel.Spec.C14Entry
 namespace Ufo2ft.Drv.C14
 open Lean Ufo2ft.Drv Ufo2ft.C14
 
@@ -140,6 +142,7 @@ structure ObsCall where
   after : GlyphSet
   src : List String
   again : Option Outcome := none
+  onGiven : Option Bool := none      -- `filter.context.glyphSet is glyphSet` (absent / null = not observed)
 
 def asOutcome (j : Json) : R Outcome := do
   let err ← asOpt asStr (← field j "err")
@@ -153,7 +156,11 @@ def asObsCall (j : Json) : R ObsCall := do
   let again ← match j.getObjVal? "again" with
     | .ok v => asOpt asOutcome v
     | .error _ => pure none
-  return { err := o.err, modified := o.modified, after := o.gs, src := ← asList asStr (← field j "src"), again := again }
+  let onGiven ← match j.getObjVal? "onGiven" with
+    | .ok v => asOpt asBool v
+    | .error _ => pure none
+  return { err := o.err, modified := o.modified, after := o.gs, src := ← asList asStr (← field j "src"), again := again,
+           onGiven := onGiven }
 
 def ObsCall.outcome (o : ObsCall) : Outcome := { err := o.err, modified := o.modified, gs := o.after }
 
@@ -197,9 +204,12 @@ def seq (req : Json) : R Reply := do
   let hcalls := (List.zip fps.toList ocalls).all (fun (e : (Footprint × GlyphSet) × ObsCall) =>
     -- a second run on the same source font (new copies) gives the same, whether or not the call raised
     holdsAgain separate e.2.outcome e.2.again &&
+    -- the entry of the call: a glyph set that was given is the object worked on (Spec/C14Entry)
+    holdsEntry separate e.2.onGiven &&
     match e.2.err with
     | some _ => true
-    | none => holdsCall e.1.1 incl e.1.2 e.2.modified e.2.after && holdsSource separate e.2.src)
+    | none => holdsCall e.1.1 incl e.1.2 e.2.modified e.2.after && holdsSource separate e.2.src &&
+              (!(separate && e.1.2.isEmpty) || holdsEmptyCall e.2.after e.2.src))
   let hstate := holdsStateless (ocalls.map ObsCall.outcome) (ofresh.map ObsCall.outcome)
   return { model := Json.mkObj [("calls", Json.arr outs)],
            holds := hcalls && hstate && ocalls.length == fonts.length }
